@@ -126,11 +126,16 @@ func TestC02Search(t *testing.T) {
 		old := searcher.DisjunctionHeapTakeover
 		searcher.DisjunctionHeapTakeover = rapid.SampledFrom([]int{2, 10}).Draw(t, "heapTakeover")
 		defer func() { searcher.DisjunctionHeapTakeover = old }()
-		c := BuildCorpus(t, CorpusOpts{})
+		c := BuildCorpus(t, CorpusOpts{}.GenBig(t))
 		g := QGen{}
 		nq := 6
 		for qi := 0; qi < nq; qi++ {
-			q := g.Tree(t, fmt.Sprintf("q%d", qi), 3)
+			var q *Q
+			if rapid.IntRange(0, 4).Draw(t, "frequentCompound") == 0 {
+				q = g.FrequentCompound(t, fmt.Sprintf("fq%d", qi))
+			} else {
+				q = g.Tree(t, fmt.Sprintf("q%d", qi), 3)
+			}
 			ctxDump = func() string {
 				return fmt.Sprintf("C02 query %s on %s, live docs %v, history %s", q, c.Cfg, c.Model.Docs, canonJSON(c.Steps))
 			}
